@@ -25,7 +25,9 @@ OK_ALL = ["ok " + t for t in ("transfer", "staking", "unstaking", "proposal", "v
 TXB = 'genesis: 3 funded accounts (symbolic balances < 2^100), validators A0,A1 (symbolic power), symbolic governance parameters; 2 empty blocks; prelude block (proposal by A0 / reward issuance to A0 where the tx type needs it); then ONE transaction of each of the 7 native types with sender in {A0,A1,A2}, type-specific receivers (incl. zero address / account-less address), symbolic amount < 2^101, gas < 2^42, nonce in [0,3], gas price in {governance price, +1}'
 
 CHECKS = {
-    "SMOKE": {"quick": [{"name": NODE + "ZZ_Smoke", "reach": ["smoke end"]}], "assumptions": []},
+    "SMOKE": {"quick": [{"name": NODE + "ZZ_Smoke", "reach": ["smoke end"]},
+                        {"name": P + "libs.ZZ_Lib", "reach": ["lib end"], "bound": "engine robustness: sort.Slice, strings/strconv/bytes/hex/binary, errors.Is/As/%w, math/bits, math/big (pure Go), uint256 siblings, sync/atomic, maps"},
+                        {"name": P + "libs.ZZ_Lib2", "reach": ["lib2 end"], "bound": "engine robustness: builders/buffers, generics, type switches, defer/recover, channels, labelled loops, aliasing, conversions"}], "assumptions": []},
     "C17": {
         "quick": [
             {"name": NODE + "ZZ_C17_E12", "reach": ["E12 succeeded", "E12 failed", "E12 end", "E12 native tx to contract"], "bound": "contracts deployed in block 3: R (pays the funded account X one unit, then REVERTs) and P in {STOP | call(third,1) STOP | call(third,1) REVERT | call(third,1) INVALID} with third in {X, R}; block 4: one transaction by the proposer or another account: call of P with symbolic value, plain transfer to P, a deployment with value, or a set-document transaction addressed to P; gas limit symbolic in [10,20999] or [300000,2^24]; then a read-only call at the committed height", "validate": 40},
@@ -85,6 +87,7 @@ CHECKS = {
             {"name": NODE + "ZZ_C03_I4", "reach": ["I4 end", "I4 honest second tx accepted"], "bound": "an honest transfer (symbolic amount) is delivered; then, in the same or the next block, a second transaction of the same sender (transfer or set-document, symbolic amount, other receiver, the then-current nonce) carrying the FIRST transaction's signature; crypto.Sig2Addr's own body is executed (only the curve recovery under it is a stub)"},
             {"name": NODE + "ZZ_C03_I5", "reach": ["I5 end"], "bound": "twin replicas, 4 validators (stake limiter active); replica B's block 3 starts with a forged transaction (delegation / unbonding / transfer / deployment from the block menu, signed with another account's key, optionally to an address without account), then both deliver the same honest menu transaction; block 4 with one more; transaction results, validator updates and application hashes compared"},
             {"name": NODE + "ZZ_C03_I6", "reach": ["I6 end", "I6 own chain accepted"], "bound": "after two blocks: nothing / a further Info call / a restart on a copy of the data directory; then a transfer (symbolic amount) signed for this chain, for the empty chain id or for another chain"},
+            {"name": NODE + "ZZ_C17_E12", "reach": ["E12 failed", "E12 end"], "bound": "the contract path (twin of C17): call of / transfer to / deployment next to / set-document addressed to a deployed contract, honestly signed or signed with another account's key - a forged one is rejected without effect", "validate": 6},
         ],
         "bounds": "one transaction; 8 single-field alterations; one lifted signature after the signed transaction was processed; the RLP encoding is modelled as an injective function of the struct the repository hands to rlp.Encode (its own narrowing casts are executed)",
         "outside": "the cryptography itself (A-SIG); injectivity of go-ethereum's RLP for the encoded struct (A-CODEC); CheckTx (does not verify signatures by design and has no effects - C06)",
@@ -122,6 +125,7 @@ CHECKS = {
             {"name": NODE + "ZZ_C06_M1", "reach": ["M1 end"], "bound": "twin replicas; genesis with 4 validators (powers symbolic inside disjoint bands, so the stake limiter is active and the ranking fixed), 5 funded accounts, concrete Test1 governance parameters; blocks 1-2 empty; block 3 and block 4 each with one transaction from {delegation A3->A0/A1 of power 1 or 2^41, unstaking of a genesis stake, transfer A3->A4 of symbolic amount, contract deployment by A3}; replica B additionally serves ONE request at one of 5 positions around block 3 (before BeginBlock, before DeliverTx, before EndBlock, before Commit, after Commit): CheckTx of a transaction of the same menu (or of block 3's own transaction) or a Query (account / delegatee / total power / gov params)", "validate": 8},
             {"name": NODE + "ZZ_C06_M2", "reach": ["M2 end", "M2 unbonded and re-bonded"], "bound": "2 validators; block 3 = [A1 unbonds its only stake, A1 bonds again] (a ledger item deleted and re-created in one block); replica B serves a CheckTx of a delegation to A1 (symbolic power) at one of 5 positions of that block; blocks 4 and 5 with votes"},
             {"name": NODE + "ZZ_C06_M3", "reach": ["M3 end"], "bound": "2 validators, a contract (STOP or the storage cell) deployed in block 2; replica B serves, at one of 4 positions of block 3 (which carries a contract call or nothing), a CheckTx of a transfer to that contract or of a call of it (symbolic value); blocks 3 and 4 compared"},
+            {"name": NODE + "ZZ_C06_M4", "reach": ["M4 end"], "bound": "2 validators; after the empty block 1 replica B serves a CheckTx of a delegation to a validator (symbolic power) or of a validator's unbonding; blocks 2 and 3 carry votes (rewards from the state of version 1): block outputs, application hashes and issued rewards compared"},
         ],
         "bounds": "one injected CheckTx/Query in 5 slots, 2 blocks observed (result codes, gas used, validator updates, application hash)",
         "outside": "more than one injected request (one suffices for a first divergence by the unwinding argument of DESIGN section 4/C06); interleavings finer than one ABCI call (the application mutex serialises them); symbolic governance parameters",
@@ -139,7 +143,7 @@ CHECKS = {
     "C07": {
         "quick": [
             {"name": NODE + "ZZ_C07_R1", "reach": ["R1 end"], "bound": "genesis with validators A0,A1 and 3 funded accounts, Test1 governance parameters with symbolic signing window and minimum in [1,3]; blocks 1-2 empty; block 3 with votes (A0 signs, A1 signs or not) and one transaction from {none, delegation A2->A0/A1 of symbolic power, transfer of symbolic amount, A1 unbonds its genesis stake}; restart on a copy of the data directory after block 3; blocks 4 (one transaction of the same menu) and 5 on both replicas; outputs compared and the validator updates of both replicas applied cumulatively to the set the engine holds", "validate": 8},
-            {"name": NODE + "ZZ_C07_R2", "reach": ["R2 end"], "bound": "one validator signing every block (rewards issued), restart after block 9, 10, 11 or 12 (around the reward-hash checkpoint taken every 10th ledger version), two more blocks on both replicas", "validate": 4},
+            {"name": NODE + "ZZ_C07_R2", "reach": ["R2 end"], "bound": "one validator signing every block (rewards issued), restart after block 2 (the block that announces the genesis validators), 9, 10, 11 or 12 (around the reward-hash checkpoint taken every 10th ledger version), two more blocks on both replicas; all paths are also replayed natively", "validate": 8},
         ],
         "bounds": "restart after h = 3, two blocks after the restart",
         "outside": "restart points other than after block 3; histories with governance changes or contract state before the restart; more than 2 validators",
@@ -150,6 +154,7 @@ CHECKS = {
             {"name": NODE + "ZZ_C08_K1", "reach": ["K1 end"], "bound": "one block (optional menu transaction): inventory of durable writes via the verif hook"},
             {"name": NODE + "ZZ_C08_K3", "reach": ["K3 end"], "bound": "process death after InitChain / BeginBlock(1) / EndBlock(1) and before the first Commit; restart, Info, InitChain again, block 1"},
             {"name": NODE + "ZZ_C08_K2", "native_repeat": 0, "reach": ["K2 recovered", "K2 no crash", "K2 replay failed"], "bound": "twin: replica A never crashes; replica C dies immediately before the k-th durable write (k = 1..12, i.e. every write position of Commit and 'no crash') of block 3 (one menu transaction with votes; block 2 carried votes in which A1 signed or not); restart on a copy of the data directory; Info; replay of block 3 when the old height is reported; block 4 with one menu transaction on both"},
+            {"name": NODE + "ZZ_C07_R2", "reach": ["R2 end"], "bound": "process death at a block boundary (twin of C07): the data directory is copied without a graceful shutdown after block 2, 9, 10, 11 or 12 and a new process continues on the copy; Info and the next two blocks compared with the node that kept running", "validate": 8},
         ],
         "bounds": "1 interrupted block, all 11 write positions of its Commit, 1 block after recovery",
         "outside": "torn writes inside one leveldb batch / SaveVersion and fsync semantics (each hooked write is atomic and durable in the model and natively); crashes in two consecutive blocks; the block with the periodic reward-hash record (every 10th height)",
@@ -202,6 +207,7 @@ CHECKS = {
             {"name": STAKE + "ZZ_C12_O12", "reach": ["O12 accepted", "O12 rejected"], "bound": "arbitrary state as in C11/B1, one unstaking tx with arbitrary sender/target/stake reference at a symbolic height"},
             {"name": STAKE + "ZZ_C12_O3", "reach": ["O3 end"], "bound": "1..3 unbonding stakes with symbolic owner/power/refund height, EndBlock+Commit at symbolic height h and h+1, unbonding period changed in between"},
             {"name": STAKE + "ZZ_C12_O4", "reach": [], "bound": "two genesis validators (zero TxHash) unbond in one block"},
+            {"name": STAKE + "ZZ_C12_O5", "reach": ["O5 end"], "bound": "one genesis validator (initial stake with the all-zero TxHash) with or without a delegation; it unbonds the initial stake; unbonding period 0..2; blocks up to 3 after the refund height: every released stake refunded exactly once, unbonding ledger empty afterwards"},
             {"name": STAKE + "ZZ_C11_B4", "reach": ["B4 end", "unstaking ok"], "bound": "the same arbitrary state; one staking / unstaking transaction run in CheckTx mode (Exec == false): delegatee records and the unbonding ledger - in-block view and what the next Commit persists - are unchanged"},
             {"name": STAKE + "ZZ_C14_S45", "reach": ["S45 jailed"], "bound": "force-release by downtime jailing: every stake of the jailed validator is frozen with refund height = height + unbonding period in force"},
         ],
